@@ -331,3 +331,13 @@ mod tests {
         }
     }
 }
+
+/// Verification hook: the column re-indexing arithmetic of the one-hot encoder.
+#[cfg(feature = "verif")]
+pub fn verif_find_new_idxs(
+    num_params: usize,
+    cat_sizes: &[usize],
+    cat_idxs: &[usize],
+) -> Vec<usize> {
+    find_new_idxs(num_params, cat_sizes, cat_idxs)
+}
